@@ -5,6 +5,8 @@ Model: `Gossamer/Model/C20.lean` – `Round` (round.go, context.go, bitfield.go)
        (one cumulative vote mask per block).  The compressed representation of vote_graph.go (entries with
        ancestor edges, `introduceBranch`, `ghostFindMergePoint`) is not modelled; it is tied to this layer by
        the correspondence run only.
+Bits:  `Gossamer/Lib/C20Bitfield.lean` – model of bitfield.go (64-bit words, big-endian bit order); `C20_bitfield_*`
+       prove that it refines the Nat masks of the round model; tied to bitfield.go by `bf` cases.
 Spec:  `Gossamer/Lib/C20Spec.lean` – the GRANDPA paper definitions as executable functions of the SET of
        imported signed votes: `weightFor`, `superm`, `specGhost` (g), `specFinalized`, `possible`,
        `specEstimate` (E), `specCompletable`.  They are what the driver prints as `spec=`.
@@ -32,6 +34,7 @@ Hypotheses of the `_partial` theorems = exactly the excluded regions:
 `C20_hypotheses_satisfiable` exhibits a non-trivial history satisfying all of them.
 -/
 import Gossamer.Lib.C20SpecEq
+import Gossamer.Lib.C20BitfieldWeight
 namespace Gossamer.C20
 
 variable {t : Tree} {ws : List Nat}
@@ -199,6 +202,34 @@ theorem C20_state_order_independent_partial (h : t.WF) (h0 : 0 < total ws) {ops 
         C20_estimate_eq_spec_partial h h0 ops' hv' htol' htolc' hgap' hov, s3]
   · rw [C20_completable_eq_spec_partial h h0 ops hv htol htolc hgap hov,
         C20_completable_eq_spec_partial h h0 ops' hv' htol' htolc' hgap' hov, s4]
+
+/-! ## bitfield.go refines the bit masks of the model -/
+
+/-- `testBit(word, pos)` reads machine bit `63 - pos`; `SetBit(p)` sets exactly position `p` (growing the
+slice when needed); `Merge` is the union (growing when needed); a blank bitfield has no bit set. -/
+theorem C20_bitfield_ops (b other : BF.Words) (p q word pos : Nat) :
+    BF.testBitGo word pos = word.testBit (63 - pos) ∧
+    BF.get (BF.setBit b p) q = (BF.get b q || decide (p = q)) ∧
+    BF.get (BF.merge b other) q = (BF.get b q || BF.get other q) ∧
+    (BF.isBlank b = true → BF.get b q = false) :=
+  ⟨BF.testBitGo_eq word pos, BF.get_setBit b p q, BF.get_merge b other q, fun h => BF.isBlank_get h q⟩
+
+/-- `weight(bits.Iter1sEven/Odd(), voters)` and `weight(bits.Iter1sMergedEven/Odd(other), voters)` are the sums
+of the weights of the voters whose bit of that phase is set (in either bitfield); hence `roundContext.Weight`
+(with its IsBlank fast path) on bitfields that represent the model's masks is the model's `nodeWeight`. -/
+theorem C20_bitfield_weight (ws : List Nat) (a b : BF.Words) (ph : Bool) :
+    BF.weight ws (BF.iter1s a (phN ph) 1) = wsum ws (fun v => BF.get a (bitPos v (phN ph))) ∧
+    BF.weight ws (BF.iter1sMerged a b (phN ph) 1)
+      = wsum ws (fun v => BF.get a (bitPos v (phN ph)) || BF.get b (bitPos v (phN ph))) ∧
+    (∀ e n, BF.Rep b e → BF.Rep a n → BF.contextWeight ws b a (phN ph) = nodeWeight ws e n ph) := by
+  have hph : phN ph < 2 := by unfold phN; split <;> omega
+  exact ⟨BF.weight_iter1s ws a _ hph, BF.weight_iter1sMerged ws a b _ hph,
+    fun e n he hn => BF.contextWeight_eq ws he hn ph⟩
+
+/-- the representation relation is preserved by the operations the round performs on bitfields -/
+theorem C20_bitfield_refines (a b : BF.Words) (m n p : Nat) (ha : BF.Rep a m) (hb : BF.Rep b n) :
+    BF.Rep [] 0 ∧ BF.Rep (BF.setBit a p) (setBit m p) ∧ BF.Rep (BF.merge a b) (m ||| n) :=
+  ⟨BF.rep_empty, BF.rep_setBit ha p, BF.rep_merge ha hb⟩
 
 /-! ## the excluded regions are really excluded, and the hypotheses are satisfiable -/
 
